@@ -518,7 +518,8 @@ class UnionProvider(LoaderProvider, DumperProvider):
             return mediator.cached_call(self._get_single_optional_dumper, not_none_dumper)
 
         forbidden_origins = [
-            case.source for case in norm.args if not self._is_class_origin(case.origin) and case.origin != Literal
+            case.source for case in norm.args
+            if not self._is_class_origin(strip_tags(case).origin) and case.origin != Literal
         ]
 
         if forbidden_origins:
@@ -546,8 +547,10 @@ class UnionProvider(LoaderProvider, DumperProvider):
         return mediator.cached_call(self._make_dumper, norm, tuple(dumpers))
 
     def _make_dumper(self, norm: BaseNormType, dumpers: Iterable[Dumper]) -> Dumper:
+        # `Annotated[Decimal, ...]` is dumped by class of wrapped type
+        origins = [strip_tags(case).origin for case in norm.args]
         dumper_type_dispatcher = ClassDispatcher(
-            {type(None) if case.origin is None else case.origin: dumper for case, dumper in zip(norm.args, dumpers)},
+            {type(None) if origin is None else origin: dumper for origin, dumper in zip(origins, dumpers)},
         )
 
         literal_dumper = self._get_dumper_for_literal(norm, dumpers, dumper_type_dispatcher)
